@@ -33,14 +33,17 @@ CLAIMS = {
     "C02": ("§5 C02",
             "Solver-decided for the layer fail-safe readers that repair consumes: for ANY cut length (also inside a tag, 1..15 bytes after a "
             "chunk edge, inside a brotli block) they do not panic, deliver only a prefix of the original stream and end with Ok(0)/Err; the "
-            "real load bodies are total on every remaining length.",
+            "real load bodies are total on every remaining length; the encryption repair reader is built and ends cleanly over an EMPTY "
+            "stream (cut right after the header); an exhausted source is never parsed as a block.",
             CONTRACT_NOTE + "Not decided: the repair block loop (convert_to_archive: four HashMaps, hash check, UnfinishedFiles report)."),
     "C03": ("§5 C03",
             "Solver-decided under an explicit ideal-MAC assumption: the real load_in_cache accepts a chunk only if its tag verifies, leaves no "
-            "byte of a rejected chunk readable, binds the nonce to the big-endian chunk index; read_internal/seek expose data only from a "
+            "byte of a rejected chunk readable, binds the nonce to the big-endian chunk index — also as the SECOND of two loads at arbitrary "
+            "chunk indices 0..3 (no state left by an earlier load switches the check off); read_internal/seek expose data only from a "
             "cache filled by a successful authenticated load of the right chunk and propagate the error.",
             CONTRACT_NOTE + "Assumes AES-GCM is a secure MAC (AesGcm256::decrypt stub: tag matches iff chunk authentic). Not decided: header fields "
-            "through bincode, names from list_files, key unwrap (ecc)."),
+            "through bincode, names from list_files. The wrapped-key unwrap (ecc) returns a key only for an entry whose 16-byte tag matches "
+            "entirely (stored tag = genuine tag XOR any 128-bit difference)."),
     "C04": ("§5 C04",
             "Solver-decided for the encryption fail-safe reader in authenticated mode: bytes come only from chunks whose tag verified, "
             "contiguously from the start; after the first rejected chunk every later read returns 0 and loads nothing; unauthenticated mode "
